@@ -133,10 +133,13 @@ def header_summary(c, data):
     c.raises("ValueError", when=None)
     c.raises(NED, when=None)
     tclass, num, tl, ln = HDR_CLASS(t), HDR_NUM(t), HDR_TL(t), HDR_LEN(t)
-    c.assume(z3.And(*header_facts(c, t, n, tclass, num, tl, ln)))
+    # facts about the RESULT: stated as postconditions, i.e. assumed only on the path that returns (on short input they are
+    # unsatisfiable, and the only outcome is one of the exceptions above)
+    c.ensures("header-facts", lambda r: header_facts(c, t, n, tclass, num, tl, ln))
+    c.assume(z3.And(tclass >= 0, tclass <= 3))  # a total function of the bytes; constrains nothing about the input
     if c.ctx.branch(tclass == 0):
         members = sorted(TYPE_TAG_MEMBERS)
-        c.assume(z3.Or(*[num == m for m in members]))
+        c.ensures("universal-tag-number-is-a-member", lambda r: z3.Or(*[num == m for m in members]))
         tag = SObj(cls_(c, "ASN1Tag"), {"tag_class": tagclass(c, 0), "tag_number": SEnum(cls_(c, "TypeTagNumber"), num), "is_constructed": HDR_CONS(t)})
     else:
         tag = SObj(cls_(c, "ASN1Tag"), {"tag_class": SEnum(cls_(c, "TagClass"), tclass), "tag_number": num, "is_constructed": HDR_CONS(t)})
@@ -148,7 +151,7 @@ def integer_summary(c, data):
     c.raises("ValueError", when=None)
     c.raises(NED, when=None)
     consumed = fresh_int("int_consumed")
-    c.assume(z3.And(consumed >= 2, consumed <= L(c, data)))
+    c.ensures("consumed-lies-within-the-data", lambda r: z3.And(consumed >= 2, consumed <= L(c, data)))
     c.returns((INT_VALUE(t), consumed))
 
 
@@ -157,7 +160,7 @@ def oid_summary(c, data):
     c.raises("ValueError", when=None)
     c.raises(NED, when=None)
     consumed = fresh_int("oid_consumed")
-    c.assume(z3.And(consumed >= 2, consumed <= L(c, data)))
+    c.ensures("consumed-lies-within-the-data", lambda r: z3.And(consumed >= 2, consumed <= L(c, data)))
     c.returns((SStr(OID_TEXT(t)), consumed))
 
 
